@@ -392,10 +392,17 @@ def mutate(gen, items, kind, rng):
         code = "UNITS_INVALID"
     elif kind == "bad-value":
         cands = [n for n in gen.values if o.value_classes_of(n) == ["numericClass"]]
-        if not cands:
+        multi = [n for n in gen.values if len(o.value_classes_of(n)) > 1
+                 and set(o.value_classes_of(n)) <= {"numericClass", "nameClass"} and not o.unit_classes_of(n)]
+        if not cands and not multi:
             return None
-        n = rng.choice(cands)
-        bad = rng.choice(["abc", "1.2.3", "--4", "3e", "e5", "1,5".replace(",", "x")])
+        if multi and (not cands or rng.random() < 0.3):
+            # a value that is neither a number nor a name: it fails every class, each for its own reason
+            n = rng.choice(multi)
+            bad = rng.choice(["a.b", "3.5.5", "a$b", "a:b", "1.2e"])
+        else:
+            n = rng.choice(cands)
+            bad = rng.choice(["abc", "1.2.3", "--4", "3e", "e5", "1,5".replace(",", "x")])
         unit = ""
         if o.unit_classes_of(n):
             t = gen.table(n)
